@@ -127,12 +127,12 @@ class GeneratedElitism(Facet):
         from vk.values import single_objective_values
 
         val = single_objective_values()
-        return st.integers(1, 12).flatmap(
+        return st.one_of(st.integers(1, 12), st.integers(1, 12 if tier == "quick" else 80)).flatmap(
             lambda n: st.builds(
                 lambda values, entries, kk, minimize, form: {"values": values, "entries": entries, "k": 1 + kk % len(entries), "minimize": minimize, "form": form},
                 st.lists(val, min_size=n, max_size=n),
-                st.lists(st.integers(0, n - 1), min_size=1, max_size=12),
-                st.integers(0, 11),
+                st.lists(st.integers(0, n - 1), min_size=1, max_size=max(12, n)),
+                st.integers(0, max(11, n - 1)),
                 st.booleans(),
                 st.sampled_from(["list", "population"]),
             ),
